@@ -1,7 +1,7 @@
-(* Lemmas about the rendering model (Render.v) and the computed facts about the generated tables (GenRender.v, GenTables.v). *)
+(* Lemmas about the rendering model (Render.v) that do not depend on the generated tables. *)
 From Coq Require Import List NArith Bool.
 Import ListNotations.
-Require Import Cat CatFacts Tree GenTables GenRender Render.
+Require Import Cat CatFacts Tree GenRender Render.
 Open Scope N_scope.
 
 (* ---------- an empty mutation list is the identity on the store ---------- *)
@@ -34,31 +34,6 @@ Proof.
   intros H. induction H as [|f fs Hf Hfs IH]; cbn [run_seq_with map]; [reflexivity|].
   unfold render_with. rewrite (no_muts_nil f Hf), mutate_nil, IH. reflexivity.
 Qed.
-
-(* ---------- the generated mutation lists are empty (recomputed against the current source on every build) ---------- *)
-Lemma all_offered_no_muts : forallb no_muts_b offered_formats = true.
-Proof. vm_compute. reflexivity. Qed.
-
-Lemma offered_no_muts f : In f offered_formats -> no_muts_b f = true.
-Proof. intros H. exact (proj1 (forallb_forall no_muts_b offered_formats) all_offered_no_muts f H). Qed.
-
-Lemma Forall_offered_no_muts fs : Forall (fun f => In f offered_formats) fs -> Forall (fun f => no_muts_b f = true) fs.
-Proof. intros H. induction H as [|f fs Hf Hfs IH]; constructor; [now apply offered_no_muts | exact IH]. Qed.
-
-Lemma render_frame f s : In f offered_formats -> snd (render f s) = s.
-Proof. intros H. unfold render. apply render_with_frame. now apply offered_no_muts. Qed.
-
-Lemma render_seq_pure_any (O : Type) (enc : spec -> store -> O) fs s :
-  Forall (fun f => In f offered_formats) fs -> run_seq_with O enc fs s = (map (fun f => enc f s) fs, s).
-Proof. intros H. apply run_seq_with_pure. now apply Forall_offered_no_muts. Qed.
-
-Lemma render_seq_pure fs s :
-  Forall (fun f => In f offered_formats) fs -> run_seq fs s = (map (fun f => fst (render f s)) fs, s).
-Proof. intros H. unfold run_seq. rewrite (render_seq_pure_any _ _ fs s H). reflexivity. Qed.
-
-Lemma render_after_history fs f s :
-  Forall (fun f => In f offered_formats) fs -> fst (render f (snd (run_seq fs s))) = fst (render f s).
-Proof. intros H. rewrite (render_seq_pure fs s H). reflexivity. Qed.
 
 (* ---------- outcomes ---------- *)
 Lemma seq_ok a b : seq a b = Ok <-> a = Ok /\ b = Ok.
@@ -114,40 +89,15 @@ Proof.
     pose proof (is_ok_eq _ (Hbin (o, s) Hp)) as Hq. cbn [fst snd] in Hq. rewrite Hq. cbn [seq]. rewrite (IHl Htl), (IHr Htr). reflexivity.
 Qed.
 
-(* ---------- closure of the generated tables (recomputed against the current source on every build) ---------- *)
-Lemma all_offered_total : forallb (fun f => strict_word_only_b f && labels_closed_b f) offered_formats = true.
-Proof. vm_compute. reflexivity. Qed.
-
+(* ---------- batches ---------- *)
 Lemma offered_for_In lang f : In f (offered_for lang) -> In f offered_formats /\ f_lang f = lang.
 Proof. unfold offered_for. rewrite filter_In. intros [H1 H2]. apply text_eqb_eq in H2. now split. Qed.
-
-Lemma check_batch_total lang f b : In f (offered_for lang) -> batch_ok lang b -> check_batch f b = Ok.
-Proof.
-  intros Hf Hb. apply offered_for_In in Hf as [Hin Hlang]. subst lang.
-  pose proof (proj1 (forallb_forall _ offered_formats) all_offered_total f Hin) as H. apply andb_true_iff in H as [Hs Hl].
-  unfold check_batch. apply first_err_ok_iff. unfold batch_ok in Hb.
-  induction Hb as [|sent b Hsent Hb IH]; constructor; [|exact IH].
-  unfold check_sentence. apply first_err_ok_iff.
-  induction Hsent as [|t sent Ht Hsent IHs]; constructor; [|exact IHs].
-  now apply check_tree_total.
-Qed.
-
-Lemma render_total lang f s : In f (offered_for lang) -> batch_ok lang (trees s) -> fst (render f s) = Ok.
-Proof. intros Hf Hb. unfold render, render_with. cbn [fst]. now apply (check_batch_total lang). Qed.
 
 Lemma placeholder_ok lang : tree_ok lang placeholder.
 Proof. unfold tree_ok, placeholder. cbn [tree_okb]. rewrite !text_eqb_refl. reflexivity. Qed.
 
 Lemma batch_ok_app lang b1 b2 : batch_ok lang b1 -> batch_ok lang b2 -> batch_ok lang (b1 ++ b2).
 Proof. unfold batch_ok. intros H1 H2. apply Forall_app. now split. Qed.
-
-Lemma failed_sentence_harmless lang f b1 b2 log :
-  In f (offered_for lang) -> batch_ok lang b1 -> batch_ok lang b2 ->
-  fst (render f {| trees := b1 ++ [[placeholder]] ++ b2; oplog := log |}) = Ok.
-Proof.
-  intros Hf H1 H2. apply (render_total lang); [exact Hf|]. cbn [trees]. apply batch_ok_app; [exact H1|]. apply batch_ok_app; [|exact H2].
-  constructor; [|constructor]. constructor; [apply placeholder_ok | constructor].
-Qed.
 
 Lemma batch_total f s : fst (render f s) = Ok <-> Forall (fun sent => fst (render f (single sent)) = Ok) (trees s).
 Proof.
@@ -156,34 +106,3 @@ Proof.
   - unfold check_batch. cbn [first_err]. now rewrite seq_ok_r.
   - unfold check_batch in Hs. cbn [first_err] in Hs. now rewrite seq_ok_r in Hs.
 Qed.
-
-(* ---------- label vocabularies of the grammars vs the Prolog tables ---------- *)
-Lemma en_labels_closed_b : forallb (fun p => text_in (fst p) (map fst prolog_op_mapping)) en_binary_labels = true.
-Proof. vm_compute. reflexivity. Qed.
-Lemma ja_symbols_closed_b : forallb (fun p => text_in (snd p) (map fst prolog_ja_combinators)) (ja_binary_labels ++ ja_unary_labels) = true.
-Proof. vm_compute. reflexivity. Qed.
-
-Lemma en_labels_closed ops sym : In (ops, sym) en_binary_labels -> In ops (map fst prolog_op_mapping).
-Proof. intros H. apply text_in_In. exact (proj1 (forallb_forall _ _) en_labels_closed_b (ops, sym) H). Qed.
-Lemma ja_symbols_closed ops sym : In (ops, sym) (ja_binary_labels ++ ja_unary_labels) -> In sym (map fst prolog_ja_combinators).
-Proof. intros H. apply text_in_In. exact (proj1 (forallb_forall _ _) ja_symbols_closed_b (ops, sym) H). Qed.
-
-(* the two translators agree: the tables the Prolog printers look labels up in are the tables of GenTables.v, on binary
-   nodes by op_string (en) and on every inner node by op_symbol (ja) *)
-Lemma prolog_lookups :
-  option_map f_labels (find_spec l_en [112;114;111;108;111;103]) = Some [(s_binary, s_op_string, map fst prolog_op_mapping)]
-  /\ option_map f_labels (find_spec l_ja [112;114;111;108;111;103]) = Some [(s_nonleaf, s_op_symbol, map fst prolog_ja_combinators)].
-Proof. split; vm_compute; reflexivity. Qed.
-
-(* every format of the two CLI lists is modelled, or is one of the formats that need depccg.semantics (nltk) *)
-Definition covered_b (lang : text) (name : text) : bool :=
-  match find_spec lang name with Some _ => true | None => existsb (fun p => text_eqb (fst p) lang && text_eqb (snd p) name) unmodelled_formats end.
-Lemma cli_covered_b : forallb (covered_b l_en) cli_formats_en && forallb (covered_b l_ja) cli_formats_ja = true.
-Proof. vm_compute. reflexivity. Qed.
-Lemma cli_covered :
-  (forall name, In name cli_formats_en -> covered_b l_en name = true) /\ (forall name, In name cli_formats_ja -> covered_b l_ja name = true).
-Proof.
-  pose proof cli_covered_b as H. apply andb_true_iff in H as [H1 H2]. rewrite forallb_forall in H1. rewrite forallb_forall in H2. now split.
-Qed.
-Lemma all_dispatched : undispatched_formats = [].
-Proof. reflexivity. Qed.
